@@ -32,6 +32,21 @@ def _expected_node(cls, parts, testnet):
                            parsed_version=T.int_(parts['ver'], BIG), testnet=testnet, children=T.lst([])))
 
 
+def same_parsed_node(ob, ev, found, cls, parts, testnet, what, where, facts=None):
+    """The node parsed from the 78-byte payload, compared through what its API returns (not through its field layout)."""
+    kw = dict(chain=parts['ch'], depth=T.int_(parts['dep'], BIG), index=T.int_(parts['idx'], BIG), testnet=testnet,
+              parent_fpr=parts['fp'])
+    if cls == PRV:
+        kw.update(prv=parts['k'], pub=T.pt(parts['k']))
+    else:
+        kw.update(pub=parts['k'])
+    ok = same_node(ob, ev, found, cls, what, where, facts=facts, **kw)
+    for cs, leaf in normal_leaves(found):
+        if T.tag(leaf) == 'obj':
+            ok &= bool(same_term(ob, attr_of(ev, leaf, 'parsed_version', facts), T.int_(parts['ver'], BIG), what + ': parsed_version', where))
+    return ok
+
+
 def run(ctx):
     p = ctx.p
     ctx.explanation = (
@@ -55,24 +70,24 @@ def run(ctx):
                 # bytes
                 ev = Evaluator(p, be)
                 v, f = ev.call_function('bip32.PubKeyNode.parse', [T.clsref(cls), B, tn])
-                same_term(ob, v, exp, 'parse(bytes) reads version, depth, fingerprint, child number, chain code, key at widths '
-                          '4,1,4,4,32,33', fp_.where)
+                same_parsed_node(ob, ev, v, cls, parts, tn, 'parse(bytes) reads version, depth, fingerprint, child number, chain code, key at widths '
+                                 '4,1,4,4,32,33', fp_.where, f)
                 # stream
                 ev = Evaluator(p, be)
                 v, f = ev.call_function('bip32.PubKeyNode.parse', [T.clsref(cls), ev.new_stream(B), tn])
-                same_term(ob, v, exp, 'parse(BytesIO) is the same parser', fp_.where)
+                same_parsed_node(ob, ev, v, cls, parts, tn, 'parse(BytesIO) is the same parser', fp_.where, f)
                 # a stream that continues after the 78 bytes: exactly 78 are consumed, the key is 33 bytes
                 ev = Evaluator(p, be)
                 st = ev.new_stream(T.cat(B, S('trailing', type='bytes')))
                 v, f = ev.call_function('bip32.PubKeyNode.parse', [T.clsref(cls), st, tn])
-                same_term(ob, v, exp, 'parse(BytesIO) of a longer stream reads exactly the 78-byte node', fp_.where)
+                same_parsed_node(ob, ev, v, cls, parts, tn, 'parse(BytesIO) of a longer stream reads exactly the 78-byte node', fp_.where, f)
                 same_term(ob, ev.stream_state(st)[1], T.const(78), 'parse consumes exactly 78 bytes of the stream', fp_.where)
                 # str: through the checksummed decoder
                 summ = dict(X.DEFAULT_SUMMARIES)
                 summ['helper.decode_base58_checksum'] = lambda ev_, fi, env, facts, B=B: (B, facts)
                 ev = Evaluator(p, be, summaries=summ)
                 v, f = ev.call_function('bip32.PubKeyNode.parse', [T.clsref(cls), S('xkey', type='str'), tn])
-                same_term(ob, v, exp, 'parse(str) decodes with decode_base58_checksum and uses the same parser', fp_.where)
+                same_parsed_node(ob, ev, v, cls, parts, tn, 'parse(str) decodes with decode_base58_checksum and uses the same parser', fp_.where, f)
                 ob.require('helper.decode_base58_checksum' in {c for _, c in ev.calls},
                            'parse(str) goes through the checksummed decoder', fparse.where)
                 # anything else is refused
@@ -80,8 +95,9 @@ def run(ctx):
                 v, f = ev.call_function('bip32.PubKeyNode.parse', [T.clsref(cls), S('n', type='int'), tn])
                 ob.require(all(T.tag(x) == 'raise' for _, x in leaves(v)), 'an input that is not str/bytes/BytesIO is refused',
                            fparse.where, found=T.show(v, maxdepth=3))
-                v, f = Evaluator(p, be).call_function('bip32.PubKeyNode.parse', [T.clsref(cls), B])
-                same_term(ob, T.obj_fields(v)['testnet'] if T.tag(v) == 'obj' else v, T.FALSE, 'default network is mainnet', fparse.where)
+                e9 = Evaluator(p, be)
+                v, f = e9.call_function('bip32.PubKeyNode.parse', [T.clsref(cls), B])
+                same_node(ob, e9, v, cls, 'default network is mainnet', fparse.where, facts=f, testnet=T.FALSE)
             with ctx.obligation('C07.ROUNDTRIP', 'parse ~ _serialize', cfg, fp_.where) as ob:
                 ev = Evaluator(p, be)
                 node, _ = ev.call_function('bip32.PubKeyNode.parse', [T.clsref(cls), B, tn])
@@ -199,7 +215,6 @@ def check_dispatch(ctx, rule):
                 ev = Evaluator(p, be, summaries=summ)
                 v, f = ev.call_function('base_wallet.BaseWallet.from_extended_key', [T.clsref(BW), S('xkey', type='str')])
                 tnc = T.const(net == 'test')
-                node = _expected_node(cls, parts, tnc)
                 if T.tag(v) != 'obj':
                     if T.opaques(v):
                         ob.undecided('from_extended_key is not computable by the evaluator for a %s key (%s)' % (
@@ -207,13 +222,12 @@ def check_dispatch(ctx, rule):
                     else:
                         ob.require(False, 'a wallet cannot be built from a %s key' % slip132.LABELS[ver], ffx.where, found=T.show(v, maxdepth=3))
                     continue
-                wf = T.obj_fields(v)
-                same_term(ob, wf.get('master'), node, '%s: master node has the key type and network of the version prefix'
-                          % slip132.LABELS[ver], ffx.where)
-                same_term(ob, wf.get('testnet'), tnc, '%s: wallet network' % slip132.LABELS[ver], ffx.where)
+                same_parsed_node(ob, ev, attr_of(ev, v, 'master', f), cls, parts, tnc,
+                                 '%s: master node has the key type and network of the version prefix' % slip132.LABELS[ver], ffx.where, f)
+                same_term(ob, attr_of(ev, v, 'testnet', f), tnc, '%s: wallet network' % slip132.LABELS[ver], ffx.where)
                 wo, _ = ev.call_function('base_wallet.BaseWallet.watch_only', [v])
                 same_term(ob, wo, T.const(kt == 'PUB'), '%s: watch_only' % slip132.LABELS[ver], ffx.where)
-                same_term(ob, T.const(T.tag(wf.get('bip85')) == 'obj'), T.const(kt == 'PRV'),
+                same_term(ob, T.const(T.tag(attr_of(ev, v, 'bip85', f)) == 'obj'), T.const(kt == 'PRV'),
                           '%s: BIP85 only for private wallets' % slip132.LABELS[ver], ffx.where)
             # unknown version: no wallet
             B, parts = _payload('pub')
